@@ -9,6 +9,7 @@ package main
 import (
 	"bufio"
 	"bytes"
+	"encoding/binary"
 	"encoding/json"
 	"errors"
 	"fmt"
@@ -772,6 +773,47 @@ func runStatsIndexDamage(x *acCtx, c *acCase) {
 	}
 }
 
+// runStatsIndexMoved: a header whose IndexOffset was corrupted to point somewhere else still "claims
+// an index": the codec is whatever canonical varint sits there, or inspection must fail.
+func runStatsIndexMoved(x *acCtx, c *acCase) {
+	if c.A.Ver != 2 || c.A.Npad > 0 {
+		return
+	}
+	file := c.A.build()
+	L := c.Layout
+	seen := map[int]bool{}
+	for _, off := range []int{1, 11, 30, L.DataOff, L.DataOff + 1, L.DataOff + L.HeaderLen, L.DataOff + L.HeaderLen + 2, L.DataOff + L.DataSize/2,
+		L.DataOff + L.DataSize - 1, L.DataOff + L.DataSize, len(file) - 1, len(file), len(file) + 7} {
+		if off <= 0 || seen[off] {
+			continue
+		}
+		seen[off] = true
+		mut := append([]byte{}, file...)
+		binary.LittleEndian.PutUint64(mut[43:], uint64(off))
+		name := fmt.Sprintf("index-offset-moved-to-%d", off)
+		rd, err := carv2.NewReader(bytes.NewReader(mut))
+		x.rep.eval(canon(c.A)+name, true)
+		if err != nil {
+			continue // not accepted as a container: nothing is claimed
+		}
+		okRef, code := false, uint64(0)
+		if off < len(mut) {
+			if v, n := getUvarint(mut[off:]); n > 0 && n <= 9 && len(putUvarint(v)) == n {
+				okRef, code = true, v
+			}
+		}
+		st, err := rd.Inspect(true)
+		switch {
+		case okRef && err != nil:
+			x.viol("inspect/index-codec/moved", c, fmt.Sprintf("%s: Inspect(true) fails although the payload scans and a codec (%#x) is readable at the claimed index offset: %v", name, code, err), map[string]any{"mode": "stats"})
+		case !okRef && err == nil:
+			x.viol("inspect/index-codec/moved", c, fmt.Sprintf("%s: Inspect(true) succeeds (IndexCodec=%v) although no codec is readable at the claimed index offset", name, st.IndexCodec), map[string]any{"mode": "stats"})
+		case okRef && uint64(st.IndexCodec) != code:
+			x.viol("inspect/index-codec/moved", c, fmt.Sprintf("%s: IndexCodec=%#x, the bytes at the claimed index offset say %#x", name, uint64(st.IndexCodec), code), map[string]any{"mode": "stats"})
+		}
+	}
+}
+
 // ---- C01 read side -------------------------------------------------------------------------
 
 func seqMismatch(c *acCase, roots []cid.Cid, blks []blocks.Block, checkRoots bool) string {
@@ -1015,6 +1057,7 @@ func runArchiveReplay(args []string) int {
 					case "stats":
 						runStatsCase(x, &c)
 						runStatsIndexDamage(x, &c)
+						runStatsIndexMoved(x, &c)
 					case "scan":
 						runScanCase(x, &c)
 						runWriteCase(x, &c)
